@@ -11,7 +11,7 @@ PROOF_MODULE = "Nlmodel.Proofs.C08"
 PROOF_FILES = ["Nlmodel/Proofs/C08.lean", "Nlmodel/Model/Lexer.lean", "Nlmodel/Model/Printer.lean", "Nlmodel/Model/Parser.lean"]
 THEOREM_FILE = PROOF_FILES[0]
 LEVEL_TEXT = ("Lean theorems about the model tokenizer (a mirror of lexer.rs) and string decoding: THE ROUND TRIP C08_lex_render: for EVERY list of well-formed tokens and EVERY choice of separators before, between and after them (nothing where maximal munch allows it, blanks, tabs, newlines, CRLF, Unicode whitespace, line comments) tokenizing the rendered text gives exactly that token list, by induction over the list with one lemma per token class and per separator; a string literal spelled `\"`+escape(s)+`\"` is one token with body escape(s) for any text s; unescape(escape s) = s for every text; the string scanner stops exactly at the closing quote of an escaped text; lexing always terminates within the supplied fuel and consumes its input (nothing is dropped: an unknown character or an unterminated string becomes an Illegal token the parser rejects); keywords are recognised only as whole words; two-character operators are matched before their prefixes. The full render/lex round-trip statement is kept in Proofs/C08 (partial: see level_note). The model is tied to lexer.rs/parser.rs by comparing token streams and decoded strings: all token pairs over a 60-token vocabulary under all 17 separator choices (complete), all triples with no separator, random longer sequences, all string contents up to length 4 over a 6-symbol alphabet (complete, 1555 strings), identifiers and strings over non-ASCII alphabets; the Unicode classes are a parameter loaded from the running Rust std.")
-LEVEL_NOTE = ("Trusted: Lean kernel; char::is_alphabetic/is_alphanumeric are a parameter of the model (table dumped from Rust std at run time, hypotheses LR.CCWF - letters/digits/whitespace/punctuation classes - which the check verifies on the dumped table at every run and which the ASCII classification provably satisfies); Rust str slicing.")
+LEVEL_NOTE = ("For ARBITRARY text (not only renderings of token lists): C08_nothing_dropped (the spans the tokenizer consumes - whitespace, comments, token spellings - concatenate to the text, and their tokens are the token stream), C08_every_character_accounted, C08_unreadable_text_is_rejected (an unknown character or an unterminated string is never accepted: syntax error, or the type error the preceding tokens already are), C08_accepted_text_is_clean, C08_words_and_numbers_are_maximal (keywords only as whole words, maximal munch). Trusted: Lean kernel; char::is_alphabetic/is_alphanumeric are a parameter of the model (table dumped from Rust std at run time, hypotheses LR.CCWF - letters/digits/whitespace/punctuation classes - which the check verifies on the dumped table at every run and which the ASCII classification provably satisfies); Rust str slicing.")
 TECHNIQUE = "Lean 4 proof (lex(render ts seps) = ts for all token lists and separator choices; unescape(escape s) = s) + render/lex round trip on the real tokenizer"
 RULE = ("token sequences: complete enumeration of pairs over the vocabulary x every separator choice, complete triples without "
         "separators, random sequences of length 4-12 with random separators; string literals: complete enumeration of contents "
